@@ -248,13 +248,15 @@ Record dbview := mkDbv {
   v_jnl : list (N * list jentry * bytes);
   v_min : N; v_max : N; v_mmin : N; v_mmax : N; v_prev : bytes }.
 
-(** result codes: 0 ok, 1 higher, 2 too much, 3 no journal, 4 panic, 5 other error *)
+(** result codes: 0 ok, 1 higher, 2 too much, 3 no journal, 4 panic, 5 other error,
+    6 the call never returns (deadlock on the changer's lock) *)
 Inductive out :=
 | OS (s : sout) | ONone | OQuery (e : bool) (l : list val) | OFlush (root : bytes) (dirty : list N)
 | ORes (r : N) | ODump (l : list sout) | ODb (d : dbview).
 
 Definition R_ok := 0. Definition R_higher := 1. Definition R_toomuch := 2.
 Definition R_nojournal := 3. Definition R_panic := 4. Definition R_err := 5.
+Definition R_hang := 6.
 
 (** ** reads *)
 Definition do_getbal (m : st) (a : N) : st * sout := let '(m1, o) := get_obj m a in (m1, SZ (obj_bal o)).
@@ -388,7 +390,8 @@ Definition do_revert (e : env) (m : st) (id : N) : st * out :=
   | None => (m, ORes R_panic)
   | Some len =>
       let m1 := revert_n e (List.length (s_chg m) - len) m in
-      (set_revs m1 (filter (fun r : N * nat => fst r <? id) (s_revs m1)) (s_next m1), ORes R_ok)
+      (set_revs m1 (filter (fun r : N * nat => fst r <? id) (s_revs m1)) (s_next m1),
+       ORes (if s_bad m1 && negb (s_bad m) then R_hang else R_ok))
   end.
 
 Definition do_finalise (m : st) : st :=
